@@ -32,14 +32,19 @@ MonInit == [bad |-> <<>>, wit |-> {}, run |-> 0, cls |-> "",
             mustclose |-> "",     \* side whose stream has shown a malformed length prefix and is not closed yet
             ext |-> NoExt,        \* messages extracted per side in this run (seen through the hooks)
             ext1 |-> NoExt,       \* ... in run 1
-            cmp1 |-> FALSE]       \* run 1 ran to completion
+            cmp1 |-> FALSE,       \* run 1 ran to completion
+            reported |-> {},      \* ids of queries the layer has already reported in a hook (it HAS seen the query)
+            replied |-> {}]       \* ids the upstream has replied to in this run
 
 SentIds(m) == { s[1] : s \in m.sent }
 Has(m, id, q) == \E s \in m.sent : s[1] = id /\ s[2] = q
 
 HookBad(m, ev) ==
   IF ~ev.has_req
-    THEN <<"C27.hook_flow_without_query", ev.name, IF ev.pid \in SentIds(m) THEN "id_known" ELSE "id_unknown">>
+    THEN <<"C27.hook_flow_without_query", ev.name,
+           IF ev.pid \notin SentIds(m) THEN "id_unknown"              \* nobody asked
+           ELSE IF ev.pid \in m.reported THEN "id_query_reported"    \* the layer had the query and lost it again
+           ELSE "id_query_pending">>                                  \* query sent, but not yet processed by the layer
   ELSE IF ~Has(m, ev.rid, ev.rq) THEN <<"C27.hook_query_not_from_client", ev.name>>
   ELSE <<>>
 
@@ -72,12 +77,16 @@ Clause(m, ev) ==
 MonStep(m, ev) ==
   LET m1 == [m EXCEPT !.bad = IF @ # <<>> THEN @ ELSE Clause(m, ev)] IN
   CASE ev.k = "run" -> [m1 EXCEPT !.run = ev.r, !.cls = ev.cls, !.sent = {}, !.mustclose = "", !.ext = NoExt,
+                                  !.reported = {}, !.replied = {},
                                   !.wit = @ \cup (IF ev.r > 1 THEN {"second_segmentation"} ELSE {})]
     [] ev.k = "query" -> [m1 EXCEPT !.sent = @ \cup {<<ev.id, ev.q, ev.rd, ev.op>>},
                                     !.wit = @ \cup (IF ev.id \in SentIds(m) THEN {"id_reused"} ELSE {})]
-    [] ev.k = "reply" -> [m1 EXCEPT !.wit = @ \cup (IF ev.id \notin SentIds(m) THEN {"unsolicited_reply"}
+    [] ev.k = "reply" -> [m1 EXCEPT !.replied = @ \cup {ev.id},
+                                    !.wit = @ \cup (IF ev.id \notin SentIds(m) THEN {"unsolicited_reply"}
                                                       ELSE IF ~Has(m, ev.id, ev.q) THEN {"reply_other_question"}
-                                                      ELSE {"matching_reply"})]
+                                                      ELSE {"matching_reply"})
+                                              \cup (IF ev.id \in m.replied /\ ev.id \in m.reported
+                                                    THEN {"duplicate_reply_after_exchange"} ELSE {})]
     [] ev.k = "deliver" -> [m1 EXCEPT !.mustclose = IF ev.malformed /\ @ = "" THEN ev.side ELSE @,
                                       !.wit = @ \cup {"tcp_segment"} \cup (IF ev.malformed THEN {"malformed_prefix"} ELSE {})]
     [] ev.k = "close" -> [m1 EXCEPT !.mustclose = IF @ = ev.c THEN "" ELSE @]
@@ -87,6 +96,7 @@ MonStep(m, ev) ==
                             ELSE IF ev.name = "dns_response" /\ ev.porigin = "upstream" /\ ev.fresh
                               THEN [@ EXCEPT !.server = Append(@, <<ev.pid, ev.pq>>)]
                             ELSE @,
+                    !.reported = IF ev.has_req THEN @ \cup {ev.rid} ELSE @,
                     !.wit = @ \cup {ev.name}]
     [] ev.k = "to_client" -> [m1 EXCEPT !.wit = @ \cup {"to_client_" \o ev.origin}]
     [] ev.k = "run_end" -> [m1 EXCEPT !.ext1 = IF m.run = 1 THEN m.ext ELSE @, !.cmp1 = IF m.run = 1 THEN ev.complete ELSE @,
